@@ -751,6 +751,8 @@ type c13Gens struct {
 	trk     [2]*udpConnStateTracker
 	dts     [2]*controlPlaneDrainTracker
 	haveMap bool
+	// coreClosed: controlPlaneCore.Close() of that generation has run (reload retirement)
+	coreClosed [2]bool
 
 	mu        sync.Mutex
 	ownedPuts map[uint64]string
@@ -787,6 +789,7 @@ func c13NewGens(shared bool) *c13Gens {
 	}
 	for i := 0; i < 2; i++ {
 		c := &controlPlaneCore{log: lg}
+		c.closed, c.close = context.WithCancel(context.Background()) // as newControlPlaneCore does
 		c.bpf.Store(g.bpfs[i])
 		g.trk[i] = acquireSharedUdpConnStateTracker(g.bpfs[i])
 		c.udpConnStateTracker.Store(g.trk[i])
@@ -798,7 +801,9 @@ func c13NewGens(shared bool) *c13Gens {
 
 func (g *c13Gens) close() {
 	for i := 0; i < 2; i++ {
-		releaseSharedUdpConnStateTracker(g.bpfs[i], g.trk[i])
+		if !g.coreClosed[i] { // a closed core has handed its reference back itself
+			releaseSharedUdpConnStateTracker(g.bpfs[i], g.trk[i])
+		}
 	}
 	if g.maps[0] != nil {
 		_ = g.maps[0].Close()
@@ -1657,8 +1662,23 @@ func c13GenerationsSequential(m *vk.Monitor) {
 		nops := 8 + rng.IntN(30)
 		for i := 0; i < nops; i++ {
 			k, g := rng.IntN(nkeys), rng.IntN(2)
+			if gens.coreClosed[0] {
+				g = 1 // the old generation is gone: new packets belong to the new one
+			}
 			var desc string
-			switch x := rng.IntN(100); {
+			x := rng.IntN(100)
+			if shared && !gens.coreClosed[0] && i > 3 && rng.IntN(8) == 0 {
+				x = 100
+			}
+			switch {
+			case x == 100:
+				// reload retirement: the old generation's core is closed while endpoints it created
+				// (and that no packet of the new generation has adopted yet) live on in the pool and
+				// still own their flow entries; they release them through the closed core later
+				_ = gens.cores[0].Close()
+				gens.coreClosed[0] = true
+				desc = "old generation's controlPlaneCore.Close() (shared BPF objects)"
+				m.Count("c_seq_old_core_closed_with_live_endpoints", 1)
 			case x < 45: // create or adopt
 				c := h.goc(k, g, "seq")
 				desc = fmt.Sprintf("GetOrCreate(key%d, gen%d) -> conn%d new=%v err=%q", k, g, c.Conn, c.IsNew, c.Err)
